@@ -87,6 +87,70 @@ func checkHistLog(c *mon.Ctx, kind string, cached bool, log []mon.Event, he hist
 		}
 	}
 	checkHistCounts(c, kind, gotV, gotD, he, ctx)
+	checkHistPairs(c, kind, log, he, ctx)
+}
+
+// checkHistPairs: through a reporter the bucket is identified by (lower,
+// upper): each sample must be counted in the first bucket of the sorted
+// tiling whose upper bound is >= the sample (with duplicated bounds that is
+// the only one whose interval contains it).
+func checkHistPairs(c *mon.Ctx, kind string, log []mon.Event, he histExpect, ctx interface{}) {
+	if he.IsDur {
+		pairs := mon.RefPairsD(he.D)
+		exp := make([]int64, len(pairs))
+		for _, x := range he.SamplesD {
+			exp[mon.RefPairIndexD(he.D, x)] += he.Mult
+		}
+		got := map[mon.PairD]int64{}
+		for _, ev := range log {
+			if ev.Name == he.Name && ev.Kind == mon.EvHistD {
+				got[mon.PairD{Lo: ev.LoD, Hi: ev.HiD}] += ev.I
+			}
+		}
+		want := map[mon.PairD]int64{}
+		for i, p := range pairs {
+			want[p] += exp[i]
+		}
+		for p, n := range want {
+			if got[p] != n {
+				c.Violation("wrong-bucket-pair/"+kind, map[string]interface{}{"why": fmt.Sprintf("bucket (%d,%d]: %d samples delivered, reference %d", p.Lo, p.Hi, got[p], n), "histogram": he, "context": ctx})
+				return
+			}
+		}
+		return
+	}
+	pairs := mon.RefPairsV(he.V)
+	want := map[mon.PairV]int64{}
+	var nan int64
+	for _, x := range he.SamplesV {
+		if i := mon.RefPairIndexV(he.V, x); i >= 0 {
+			want[pairs[i]] += he.Mult
+		} else {
+			nan += he.Mult
+		}
+	}
+	got := map[mon.PairV]int64{}
+	for _, ev := range log {
+		if ev.Name == he.Name && ev.Kind == mon.EvHistV {
+			got[mon.PairV{Lo: ev.Lo, Hi: ev.Hi}] += ev.I
+		}
+	}
+	var extra int64
+	seenPair := map[mon.PairV]bool{}
+	for _, p := range pairs {
+		if seenPair[p] {
+			continue
+		}
+		seenPair[p] = true
+		if got[p] < want[p] {
+			c.Violation("wrong-bucket-pair/"+kind, map[string]interface{}{"why": fmt.Sprintf("bucket (%s,%s]: %d samples delivered, reference %d", fstr(p.Lo), fstr(p.Hi), got[p], want[p]), "histogram": he, "context": ctx})
+			return
+		}
+		extra += got[p] - want[p]
+	}
+	if extra > nan {
+		c.Violation("wrong-bucket-pair/"+kind, map[string]interface{}{"why": fmt.Sprintf("%d samples beyond the reference per-bucket counts with %d NaNs recorded", extra, nan), "histogram": he, "context": ctx})
+	}
 }
 
 func checkHistCounts(c *mon.Ctx, kind string, gotV map[float64]int64, gotD map[time.Duration]int64, he histExpect, ctx interface{}) {
